@@ -99,14 +99,13 @@ fn time_roundtrip() {
     }
 }
 
-// @harness try_from_accepts_exactly_1980_2107 complete props=C18 doc="TryFrom<OffsetDateTime> is Ok iff 1980<=year<=2107 (any valid calendar date/time in years 1900..=2200) and preserves the fields"
+// @harness try_from_accepts_exactly_1980_2107 complete props=C18 doc="TryFrom<OffsetDateTime> is Ok iff 1980<=year<=2107 (any valid calendar date/time of any year the time crate can represent: no assumption on the i32 year, Date::from_calendar_date decides) and preserves the fields"
 #[kani::proof]
 fn try_from_accepts_exactly_1980_2107() {
     let y: i32 = kani::any();
     let mo: u8 = kani::any();
     let d: u8 = kani::any();
     let (h, mi, s): (u8, u8, u8) = (kani::any(), kani::any(), kani::any());
-    kani::assume(y >= 1900 && y <= 2200);
     let m = match Month::try_from(mo) { Ok(m) => m, Err(_) => return };
     let date = match Date::from_calendar_date(y, m, d) { Ok(x) => x, Err(_) => return };
     let time = match Time::from_hms(h, mi, s) { Ok(x) => x, Err(_) => return };
@@ -121,7 +120,7 @@ fn try_from_accepts_exactly_1980_2107() {
     kani::cover!(r.is_ok(), "accepted reachable");
 }
 
-// @harness try_from_takes_the_fields_as_given_for_any_offset complete props=C18 doc="TryFrom<OffsetDateTime> for a value carrying ANY UTC offset (-23:59..=+23:59) never panics, decides on the calendar year it is handed (Ok iff 1980..=2107) and stores exactly the calendar fields it is handed - no time-zone arithmetic (years 1900..=2200)"
+// @harness try_from_takes_the_fields_as_given_for_any_offset complete props=C18 doc="TryFrom<OffsetDateTime> for a value carrying ANY UTC offset (-23:59..=+23:59) never panics, decides on the calendar year it is handed (Ok iff 1980..=2107) and stores exactly the calendar fields it is handed - no time-zone arithmetic (every year the time crate can represent)"
 #[kani::proof]
 fn try_from_takes_the_fields_as_given_for_any_offset() {
     let y: i32 = kani::any();
@@ -129,7 +128,6 @@ fn try_from_takes_the_fields_as_given_for_any_offset() {
     let d: u8 = kani::any();
     let (h, mi, s): (u8, u8, u8) = (kani::any(), kani::any(), kani::any());
     let (oh, om): (i8, i8) = (kani::any(), kani::any());
-    kani::assume(y >= 1900 && y <= 2200);
     kani::assume(oh >= -23 && oh <= 23 && om >= -59 && om <= 59 && ((oh >= 0 && om >= 0) || (oh <= 0 && om <= 0)));
     let m = match Month::try_from(mo) { Ok(m) => m, Err(_) => return };
     let date = match Date::from_calendar_date(y, m, d) { Ok(x) => x, Err(_) => return };
